@@ -219,6 +219,30 @@ def srv_frame(opcode, payload=b"", fin=1, rsv=0, mask=None, lenform=None):
     return hdr + bytes(payload)
 
 
+def connect_again(ws, events=(), tail="eof"):
+    """`ws.connect(url, socket=...)` on an EXISTING object (its second or later connection): the opening handshake really
+    happens on a fresh scripted transport; returns that transport with its counters reset."""
+    import base64
+    import hashlib
+    import os
+    key_raw = bytes(range(16))
+    acc_ = base64.b64encode(hashlib.sha1(base64.b64encode(key_raw) + b"258EAFA5-E914-47DA-95CA-C5AB0DC85B11").digest()).decode()
+    head = (f"HTTP/1.1 101 Switching Protocols\r\nUpgrade: websocket\r\nConnection: Upgrade\r\n"
+            f"Sec-WebSocket-Accept: {acc_}\r\n\r\n").encode()
+    sock = SimSocket([("chunk", head)] + list(events), tail=tail)
+    old = os.urandom
+    os.urandom = lambda k: key_raw[:k]
+    try:
+        ws.connect("ws://example.test/", socket=sock)
+    finally:
+        os.urandom = old
+    del sock.sent[:]
+    sock.log.clear()
+    sock.calls = sock.send_calls = sock.consumed = 0
+    del sock.recv_sizes[:]
+    return sock
+
+
 def make_ws_factory(events=(), tail="eof", accepts=None, mask_key=None, **kw):
     """a connected WebSocket object made by the documented factory `create_connection(url, socket=...)`: the opening
     handshake really happens (scripted 101 response), then the transport's counters are reset.  Options whose value is
